@@ -343,6 +343,62 @@ theorem compile_never_internal' (es : Entries) (cx : Ctx) (e : Err) (h : compile
                     cases he
               · cases h
 
+theorem reach_err_internal (nodes : List (String × Node)) (todo visited : List String) (e : Err)
+    (h : reach nodes todo visited = .error e) : e.isInternal = true := by
+  fun_induction reach nodes todo visited with
+  | case1 visited => cases h
+  | case2 visited k rest hv ih => exact ih h
+  | case3 visited k rest hv hn => cases h; rfl
+  | case4 visited k rest hv n hn ih => exact ih h
+
+theorem isDefaultChain_err_internal (cx : Ctx) (nodes : List (String × Node)) (targets : List (String × TInfo))
+    (start : String) (e : Err) (h : isDefaultChain cx nodes targets start = .error e) : e.isInternal = true := by
+  unfold isDefaultChain at h
+  split at h
+  · cases h; rfl
+  · split at h
+    · cases h
+    · split at h
+      · cases h; rfl
+      · cases h
+  · cases h
+
+/-- success characterised: a well-formed request compiles when assembly succeeds, the detector finds no
+    cycle and the protocol permits the routing features used -/
+theorem compile_ok_of (es : Entries) (cx : Ctx) (st : St) (start : String)
+    (hreq : ¬ (cx.svc = "" ∨ cx.ns = "" ∨ cx.part = "" ∨ cx.dc = "" ∨ cx.td = ""))
+    (ha : assemble es cx = .ok (st, start)) (hd : dfsNode st.nodes [] start = .ok ())
+    (hadv : (!httpLike st.proto && st.adv) = false) : ∃ g, compile es cx = .ok g ∧ g.start = start := by
+  cases hc : compile es cx with
+  | ok g =>
+    refine ⟨g, rfl, ?_⟩
+    obtain ⟨st', n1, vis, s⟩ := compileWith_stages _ es cx g hc
+    have := s.asm
+    rw [ha] at this
+    simp only [Except.ok.injEq, Prod.mk.injEq] at this
+    exact this.2.symm
+  | error e =>
+    exfalso
+    have hint := compile_never_internal' es cx e hc
+    unfold compile compileWith at hc
+    rw [if_neg hreq, ha] at hc
+    simp only at hc
+    unfold finishCompile at hc
+    rw [hd] at hc
+    simp only at hc
+    split at hc
+    · cases hc; simp [Err.isInternal] at hint
+    · split at hc
+      · rename_i e' he
+        cases hc
+        rw [reach_err_internal _ _ _ _ he] at hint; cases hint
+      · simp only [hadv, Bool.false_eq_true, if_false] at hc
+        split at hc
+        · rename_i e' he
+          cases hc
+          rw [isDefaultChain_err_internal _ _ _ _ _ he] at hint; cases hint
+        · cases hc
+
 /-- a cycle reachable in the assembled graph is reported as *the* circular-reference error
     (for a well-formed request; a malformed one is rejected before assembly) -/
 theorem compile_cycle_error (es : Entries) (cx : Ctx) (st : St) (start k : String)
